@@ -84,7 +84,7 @@ def run_candidates(c, cands):
 
 # model operations per action (harness/cmd/c19: a macro expansion is Dup+GenSym; the front-end
 # constructs read names through the root and generate their temporaries)
-OPS_PER_ACTION = {"m": 2, "r": 5, "p": 6, "f": 2, "l": 2, "x": 6}
+OPS_PER_ACTION = {"m": 2, "r": 5, "p": 6, "f": 2, "l": 2, "x": 6, "L": 3, "k": 3, "X": 2, "E": 2, "y": 3}
 
 
 def rle(act):
@@ -161,12 +161,21 @@ def shrink(c, f):
 
 def main(argv):
     c = Check("C19", argv)
+    # (T) every call of GenSymbol / Duplicate() / Clone() in zygo/*.go, regenerated from the current source;
+    # theorem gensym_sites_modelled (vm_compute) says each one is a construct of Model/SymtabScript.v
+    rc, tout = common.translate("gensymsites", "GensymSites.v")
+    sites_break = None
+    if rc != 0:
+        sites_break = tout[-2000:]
+        c.log("translator gensymsites failed:\n" + tout[-1500:])
     c.proofs()
     c.trusted_base([
         "the Go int counter is modelled as an unbounded integer (no history reaches 2^63 symbols)",
         "Go maps are modelled as association lists read by first match; a write is a cons",
         "read-only accessors zygo/verif_c19.go (VerifLookupSymbol, VerifSymtableCopy, VerifRevSymtableCopy, VerifTablesInverse, VerifSharesTables) and verif_access.go (VerifNextSymbol, VerifSymtableSize)",
-        "script route: the action -> model operation mapping of harness/cmd/c19 (quoted read interns through the root's parser; a macro expansion runs in an internal Duplicate)",
+        "script route: the harness names, per action, the construct of Model/SymtabScript.v it performs (ks=) and the table operations it expects (ops=); "
+        "the extracted script_ops must produce exactly those operations (else KSDIFF, a correspondence failure), so the action -> operation mapping is the Coq model's",
+        "translator/cmd/gensymsites recognises the call sites syntactically (<expr>.GenSymbol(arg), <expr>.Duplicate(), <expr>.Clone() with a non-stack receiver)",
     ])
     c.assumptions += [
         "strconv.Itoa is the decimal rendering Symtab.itoa (digits of Z.to_int)",
@@ -219,13 +228,17 @@ def main(argv):
             f["replay"] = ("fresh family (route api: NewZlispWithFuncs({}); route script: NewZlisp+StandardSetup+defmac mgs), prologue, then the actions: "
                            "M<i>:<name> = member i MakeSymbol, G<i>:<p> = GenSymbol / (gensym \"p\"), D<i>/C<i> = Duplicate/Clone, S = (str2sym), R = (quote name), "
                            "g = (gensym), m = (mgs) macro, r/p = infixExpand of a range loop (:= / =), x = run an infix range loop, f = (fn [fa] fa), l = (for ...), "
-                           "e<i>:<name> = text (list name ] with a syntax error; bin/check C19 --replay <this file>")
+                           "e<i>:<name> = text (list name ] with a syntax error, L = labelled (for zlb [..] ..), k = (package zpk ..), X = (macexpand (mgs)), "
+                           "E = (expectError \"\" (gensym)), y = (expectError \"\" (fn [fa] fa)), d<i>:<name> = (def name <position>), v<i>:<name> = evaluate name; bin/check C19 --replay <this file>")
             c.violation(f)
     if not prop_fail:
         if corr_fail:
             corr_fail.sort(key=size)
             c.violation({"kind": "correspondence: implementation differs from the Coq model Symtab.run (no history violating the specification found)",
                          "cases": corr_fail[:10], "count": len(corr_fail)}, no_input=True, tag="corr")
+        elif sites_break:
+            c.violation({"kind": "translator gensymsites no longer understands the source (a call of GenSymbol with a prefix of unknown shape, or "
+                                 "environment.go no longer defines MakeSymbol/GenSymbol/Duplicate/Clone)", "detail": sites_break}, no_input=True, tag="sites")
         elif c.proof_break:
             c.violation({"kind": "proof obligation no longer checks", "detail": c.proof_break}, no_input=True, tag="proof")
         elif bad_sites or missing:
